@@ -1,0 +1,73 @@
+//go:build verif
+
+package bus
+
+// Contracts for the snesvc verifier (/verif). Comment-only; compiled only with -tags verif.
+
+//@ func (*Bus).Attach
+//@   property C13 C11
+//@   modular
+//@   requires end < 0x1000000
+//@   ensures (start&0xf != 0 || (end+1)&0xf != 0) ==> !isnil(ret1) && all(k, uint32, k < 1<<20 ==> b.segment[k] == old(b.segment[k]))
+//@   ensures (start&0xf == 0 && (end+1)&0xf == 0) ==> isnil(ret1) && all(k, uint32, k < 1<<20 ==> b.segment[k] == ite(start>>4 <= k && k <= end>>4, mem, old(b.segment[k])))
+//@   assigns b.segment
+//@   loop 1 invariant start>>4 <= x && (x <= (end>>4)+1 || x == start>>4)
+//@   loop 1 invariant all(k, uint32, k < 1<<20 ==> b.segment[k] == ite(start>>4 <= k && k < x, mem, old(b.segment[k])))
+//@   loop 1 decreases (end>>4) + 1 - x
+//@   loop 1 modifies b.segment
+
+//@ func (*Bus).EaRead
+//@   property C13
+//@   pure emulator/memory.Memory.Read
+//@   requires a < 0x1000000
+//@   panics isnil(b.segment[a>>4])
+//@   ensures ret1 == b.segment[a>>4].Read(a)
+//@   ensures b.EA == a && !b.Write
+//@   ensures ncalls("emulator/memory.Memory.Read") == 1 && callarg("emulator/memory.Memory.Read", 0) == b.segment[a>>4] && callarg("emulator/memory.Memory.Read", 1) == a
+//@   assigns b.EA, b.Write
+
+//@ func (*Bus).EaWrite
+//@   property C13
+//@   requires a < 0x1000000
+//@   panics isnil(b.segment[a>>4])
+//@   ensures b.EA == a && b.Write
+//@   ensures ncalls("emulator/memory.Memory.Write") == 1 && callarg("emulator/memory.Memory.Write", 0) == b.segment[a>>4]
+//@   ensures callarg("emulator/memory.Memory.Write", 1) == a && callarg("emulator/memory.Memory.Write", 2) == value
+//@   assigns b.EA, b.Write
+
+// EaDump: position j of data receives exactly what a single read of start+j returns; positions of
+// unattached addresses are untouched. P(j) below is that statement for one position.
+
+//@ func (*Bus).EaDump
+//@   property C13
+//@   requires start <= end && end < 0x1000000 && len(data) > int(end-start)
+//@   ensures ret1 == int(end-start)+1
+//@   ensures all(j, uint32, j <= end-start && !isnil(b.segment[(start+j)>>4]) ==> data[j] == b.segment[(start+j)>>4].Read(start+j))
+//@   ensures all(j, uint32, j <= end-start && isnil(b.segment[(start+j)>>4]) ==> data[j] == old(data[j]))
+//@   ensures all(j, uint32, j > end-start && int(j) < len(data) ==> data[j] == old(data[j]))
+//@   assigns data
+//@   loop 1 invariant start>>4 <= k && k <= (end>>4)+1 && start <= a && a <= end+1 && i == int(a-start)
+//@   loop 1 invariant a == end+1 || a>>4 == k
+//@   loop 1 invariant all(j, uint32, j < a-start && !isnil(b.segment[(start+j)>>4]) ==> data[j] == b.segment[(start+j)>>4].Read(start+j))
+//@   loop 1 invariant all(j, uint32, j < a-start && isnil(b.segment[(start+j)>>4]) ==> data[j] == old(data[j]))
+//@   loop 1 invariant all(j, uint32, j >= a-start && int(j) < len(data) ==> data[j] == old(data[j]))
+//@   loop 1 decreases (end>>4) + 1 - k
+//@   loop 1 modifies data
+//@   loop 2 invariant start <= a && a <= end+1 && i == int(a-start)
+//@   loop 2 invariant a == end+1 || a>>4 == k || a == (k+1)<<4
+//@   loop 2 invariant all(j, uint32, j < a-start && !isnil(b.segment[(start+j)>>4]) ==> data[j] == b.segment[(start+j)>>4].Read(start+j))
+//@   loop 2 invariant all(j, uint32, j < a-start && isnil(b.segment[(start+j)>>4]) ==> data[j] == old(data[j]))
+//@   loop 2 invariant all(j, uint32, j >= a-start && int(j) < len(data) ==> data[j] == old(data[j]))
+//@   loop 2 decreases end + 1 - a
+//@   loop 2 modifies data
+//@   loop 3 invariant start <= a && a <= end+1 && i == int(a-start)
+//@   loop 3 invariant a == end+1 || a>>4 == k || a == (k+1)<<4
+//@   loop 3 invariant all(j, uint32, j < a-start && !isnil(b.segment[(start+j)>>4]) ==> data[j] == b.segment[(start+j)>>4].Read(start+j))
+//@   loop 3 invariant all(j, uint32, j < a-start && isnil(b.segment[(start+j)>>4]) ==> data[j] == old(data[j]))
+//@   loop 3 invariant all(j, uint32, j >= a-start && int(j) < len(data) ==> data[j] == old(data[j]))
+//@   loop 3 decreases end + 1 - a
+//@   loop 3 modifies data
+
+//@ func New
+//@   property C13
+//@   ensures isnil(ret2) && all(k, uint32, k < 1<<20 ==> isnil(ret1.segment[k]))
